@@ -178,9 +178,31 @@ async fn quiesce(ctx: &mut Ctx, sock: &mut Sock, xpub_got: &mut Vec<Frames>) {
 async fn run_history(ctx: &mut Ctx, ty: &str, nsubs: usize, ops: &[(usize, usize)], case: &Value) {
     let mut sock = Sock::new(ty, None);
     let mut subs = Vec::new();
+    // announced identities, none, or an Identity property of length 0 (legal ZMTP): every
+    // connection is a subscriber of its own
+    let id_kind = hash_str(&case.to_string()) % 3;
     for k in 0..nsubs {
-        match Peer::attach(&sock, if k % 2 == 0 { "SUB" } else { "XSUB" }, Some(format!("s{k}").as_bytes())).await {
-            Ok(p) => subs.push(Subscriber { peer: p, set: vec![], handed: vec![], seen_msgs: 0 }),
+        let named = format!("s{k}").into_bytes();
+        let ident: Option<&[u8]> = match id_kind {
+            0 => Some(&named),
+            1 => None,
+            _ => Some(&[]),
+        };
+        match Peer::attach(&sock, if k % 2 == 0 { "SUB" } else { "XSUB" }, ident).await {
+            Ok(p) => {
+                if id_kind == 2 && k == 1 {
+                    ctx.count("histories_with_empty_identity_subscribers");
+                }
+                if let Some(j) = subs.iter().position(|s: &Subscriber| s.peer.id == p.id) {
+                    ctx.violation_with(
+                        &format!("C11/two-subscribers-registered-under-one-identity/{ty}"),
+                        format!("subscribers {j} and {k} are both registered as {}: their subscriptions cannot be counted per connection", rc::hex(&p.id)),
+                        case.clone(),
+                    );
+                    return;
+                }
+                subs.push(Subscriber { peer: p, set: vec![], handed: vec![], seen_msgs: 0 })
+            }
             Err(e) => {
                 ctx.inconclusive(format!("C11 attach: {e}"));
                 return;
@@ -544,6 +566,7 @@ impl Prop for C11 {
         vec![
             ("exhaustive_histories", 2 * 7239),
             ("random_histories", 400),
+            ("histories_with_empty_identity_subscribers", 50),
             ("delivery_decisions_beside_a_failing_subscriber", 2000),
             ("publishes_beside_a_failing_subscriber/ConnectionReset", 200),
             ("publishes_beside_a_failing_subscriber/BrokenPipe", 100),
